@@ -7,7 +7,8 @@
    Part 2 are the theorems over ALL input scripts, quotas and oracles.
    Part 3 is the parent side (ApplyResult._ack/_set behind ResultHandler.on_ack/on_ready). *)
 From Coq Require Import ZArith List Bool.
-From BV Require Import Lib.PyVal Gen.K_worker Model.Worker Proofs.WorkerProofs.
+From BV Require Import Lib.PyVal Gen.K_worker Model.Worker Proofs.WorkerProofs Proofs.WorkerHandshake
+     Proofs.WorkerParentGen.
 Import ListNotations.
 Open Scope Z_scope.
 
@@ -71,6 +72,40 @@ Theorem C03_code_do_exit_code : forall (recorded : option Z) (exc : bool),
 Proof. exact gen_do_exit_code. Qed.
 Print Assumptions C03_code_do_exit_code.
 
+(* The parent side.  ApplyResult._ack / ApplyResult._set translated from pool.py on this run
+   (Gen/K_workerparent.v; the hooks are modelled calls that append to an ordered effect
+   log) compute exactly the model's p_ack / p_set: same final handle (accepted, cancelled,
+   owner pid, acceptance time, ready, cache entry), same hooks in the same order with the
+   same arguments ([view]); an exception leaves _ack exactly when a raising accept callback
+   makes Python evaluate the non-existent `self._propagate_errors` (observation O1).  The
+   routing around them (ResultHandler.on_ack / on_ready: `cache[job]`, the swallowed
+   KeyError/AttributeError), ready(), safe_apply_callback, _cancel, worker_pids are
+   text-compared by the translator on every run. *)
+Theorem C03_code_parent_ack : forall pc s i t pid fd r job su va,
+    in_cache s = true ->
+    let o := K.ack (emb pc s r job su va) i (PInt t) (PInt pid) (optv fd) in
+    view o = p_ack pc s t pid fd r /\
+    raised o = negb (cancelled s && has_send_ack pc) && has_accept_cb pc && r /\
+    (raised o = true -> K.g_attr_error (final o) = true).
+Proof. exact gen_p_ack. Qed.
+Print Assumptions C03_code_parent_ack.
+
+Theorem C03_code_parent_set : forall pc s i ok v job su va,
+    in_cache s = true ->
+    let o := K.set (emb pc s false job su va) i (PBool ok) (PInt v) in
+    view o = p_set pc s ok v /\ raised o = false.
+Proof. exact gen_p_set. Qed.
+Print Assumptions C03_code_parent_set.
+
+(* what PLAIN billiard gives (text-compared on this run): handles get send_ack exactly under
+   the pool's synack switch, Pool.send_ack is a no-op, Pool.get_process_queues gives the
+   workers no SYN queue -- the configuration of C03_synack_honours_cancel_refuted *)
+Theorem C03_code_plain_pool :
+  K.plain_send_ack_is_noop = true /\ K.plain_workers_have_no_syn_queue = true /\
+  K.handles_get_send_ack_iff_synack = true.
+Proof. exact gen_plain_pool. Qed.
+Print Assumptions C03_code_plain_pool.
+
 (* ------------------------------------------------------------ 2. the worker loop *)
 
 (* Message grammar.  For every configuration and every input script: the protocol events
@@ -89,8 +124,11 @@ Print Assumptions C03_message_grammar.
 (* Ordering of everything else: the full event trace (polls of the job pipe, clock read,
    ACK, SYN polls, execution, failed put, READY, memory read) is accepted by the protocol
    monitor: no job is taken before the previous READY is written, nothing runs before its
-   ACK is written and (handshake) a SYN answer was read, a job is skipped only after a SYN
-   answer.  The same monitor judges the implementation's traces in the harness. *)
+   ACK is written, a job is skipped only after at least one receive call on the SYN pipe.
+   (The monitor sees receive CALLS, not answers: that a job runs only after the answer ACK
+   and is skipped only after the answer NACK is C03_message_grammar with [confirmed], and
+   C03_acked_answered_or_refused below.)  The same monitor judges the implementation's
+   traces in the harness. *)
 Theorem C03_monitor_accepts : forall c ins, monitor (w_events c ins) = true.
 Proof. exact workloop_monitor. Qed.
 Print Assumptions C03_monitor_accepts.
@@ -292,8 +330,12 @@ Theorem C03_stream_ack_first : forall c ins n J,
 Proof. exact worker_stream_ack_first. Qed.
 Print Assumptions C03_stream_ack_first.
 
-(* composition: any worker run, any job J, cancellations woven into the stream anywhere
-   (handshake on: not before the ACK is processed -- that is C03_cancelled_job_not_run) *)
+(* composition: any worker run, any job J, cancellations woven into the stream anywhere.
+   With synack on, a cancellation BEFORE the ACK is processed is excluded by hypothesis
+   here: that case needs the two switches to be linked (synack on AND workers have a SYN
+   queue AND the response is delivered) -- then C03_handshake_whole_run applies (the job is
+   refused and never run, so no result callback exists); with synack on and no SYN queue
+   (plain billiard) the conclusion is false: C03_synack_honours_cancel_refuted. *)
 Theorem C03_parent_order : forall c ins n J pc l,
     has_accept_cb pc = true ->
     uncancel l = flat_map (pev_of J) (puts (evs (loop c n ins))) ->
@@ -319,7 +361,11 @@ Proof. exact parent_cancelled_refuses. Qed.
 Print Assumptions C03_parent_cancel_refuses.
 
 (* ... and the worker that receives that answer (after any number of empty polls) neither
-   runs the job nor counts it *)
+   runs the job nor counts it.  NOTE the hypotheses has_send_ack pc = true AND has_syn c =
+   true: two independent switches of the code, and the delivery of the response to the
+   worker is the hypothesis on q_syn.  The closed form (the SYN script DEFINED from p_ack,
+   whole run) is C03_handshake_whole_run; the unlinked configurations are
+   C03_handshake_no_answer_starves and C03_synack_honours_cancel_refuted. *)
 Theorem C03_cancelled_job_not_run : forall pc s c n q rest k f,
     in_cache s = true -> cancelled s = true -> has_send_ack pc = true ->
     has_syn c = true -> fd_truthy (synfd c) = Some f ->
@@ -331,7 +377,127 @@ Theorem C03_cancelled_job_not_run : forall pc s c n q rest k f,
 Proof. exact cancelled_job_not_run. Qed.
 Print Assumptions C03_cancelled_job_not_run.
 
+(* ------------------------------------------------ 4. audit follow-up (2026-09-23) *)
+
+(* Every job the worker announced and then left behind (it is not the last job taken) got
+   exactly ACK, RUN, READY -- or was refused: ACK only, and the FIRST answer that became
+   readable on the SYN channel for that job was the parent's NACK.  (The last job taken may
+   be cut short by whatever ended the loop: C03_message_grammar.) *)
+Theorem C03_acked_answered_or_refused : forall c ins, exists k,
+    proto (w_events c ins) = flat_map (block c) (firstn k (tasks ins)) /\
+    forall q, In q (removelast (firstn k (tasks ins))) ->
+              (block c q = [EPut (ack_msg c q); ERun (q_job q) (q_i q);
+                            EPut (ready_msg c q (final_res (q_beh q)))])
+              \/ (block c q = [EPut (ack_msg c q)] /\ has_syn c = true /\
+                  first_answer (q_syn q) = Some NACK).
+Proof. exact workloop_acked_answered_or_refused. Qed.
+Print Assumptions C03_acked_answered_or_refused.
+
+(* The SYN channel is ONE stream shared by the successive jobs of a worker ([loop_s]: what
+   a wait leaves unread is read by the next job's wait).  If what becomes readable for each
+   job is read to its end by that job's own wait (empty polls, then its answer), the worker
+   over the shared stream IS the per-job model of all the theorems above and nothing is ever
+   left behind: every answer is consumed by the job it was sent for.  (A wait that gives up
+   early -- seeded change C03-3 -- breaks exactly this; the harness runs the real workloop
+   over one shared stream with up to 130 empty polls before an answer.) *)
+Theorem C03_syn_answers_consumed_by_their_job : forall c ins n,
+    (forall q, In (RMsg q) ins -> syn_closed q = true) ->
+    loop_s c n ins [] = (loop c n ins, []).
+Proof. exact shared_stream_eq. Qed.
+Print Assumptions C03_syn_answers_consumed_by_their_job.
+
+Theorem C03_syn_segment_closed : forall q d r,
+    q_syn q = d ++ [RMsg r] -> forallb nonanswer d = true -> syn_closed q = true.
+Proof. exact closed_delay_answer. Qed.
+Print Assumptions C03_syn_segment_closed.
+
+(* Closed handshake: the SYN answer of a job IS the parent's reaction to its ACK
+   ([hs_req]: p_ack on the job's handle, cancelled or not, at the moment the ACK is
+   processed).  The code has TWO independent switches: the pool's `synack` flag
+   (has_send_ack: handles are given Pool.send_ack) and whether the workers were given a SYN
+   queue (has_syn: Pool.get_process_queues).  [linked pc c] = both on and the response is
+   delivered to a truthy descriptor.  Then the worker's decision is the parent's: *)
+Theorem C03_handshake_decision : forall pc c h,
+    linked pc c -> delay_ok h = true ->
+    confirmed c (hs_req pc true c h) = negb (hj_cancel h) /\
+    fst (syn_result c (hs_req pc true c h)) = (if hj_cancel h then SynFalse else SynTrue) /\
+    syn_closed (hs_req pc true c h) = true.
+Proof. exact hs_confirmed. Qed.
+Print Assumptions C03_handshake_decision.
+
+(* ... whole run, every script / quota / behaviour / number of empty polls: a job cancelled
+   before acceptance is announced and dropped (ACK only), every other taken job is run;
+   executions = taken jobs not cancelled; cancelled jobs do not count toward the quota;
+   and over one shared SYN stream the run is the same (no answer left for another job). *)
+Theorem C03_handshake_whole_run : forall pc c hins,
+    linked pc c -> (forall h, In (RMsg h) hins -> delay_ok h = true) ->
+    let ins := hs_ins pc true c hins in
+    exists k,
+      proto (w_events c ins) = flat_map (hblock pc c) (firstn k (htasks hins)) /\
+      w_completed c ins = Z.of_nat (length (filter hcounted (firstn k (htasks hins)))) /\
+      runs (w_events c ins) =
+        length (filter (fun h => negb (hj_cancel h)) (firstn k (htasks hins))) /\
+      workloop_s c ins = workloop c ins.
+Proof. exact hs_whole_run. Qed.
+Print Assumptions C03_handshake_whole_run.
+
+(* one switch without the other, 1: workers have a SYN queue but no answer is ever
+   delivered (synack off, or send_ack does not write): the worker waits for ever *)
+Theorem C03_handshake_no_answer_starves : forall pc c h dl,
+    has_syn c = true -> delay_ok h = true -> (has_send_ack pc = false \/ dl = false) ->
+    fst (syn_result c (hs_req pc dl c h)) = SynStarved.
+Proof. exact hs_no_answer_starves. Qed.
+Print Assumptions C03_handshake_no_answer_starves.
+
+(* one switch without the other, 2: synack on, no SYN queue -- this is plain
+   billiard.Pool(synack=True): Pool.get_process_queues returns synq=None and Pool.send_ack
+   is `pass`.  The claim "synack on => a job cancelled before acceptance is never executed
+   and no result callback runs without the accept callback" is FALSE of the code: the job
+   is marked accepted with no owner and no accept callback, no NACK is sent, the worker
+   (which never waits) runs it and the result callback fires.  Reproduced on the real code
+   by the harness (handshake cases, mode "plain") and with a real Pool (docs/C03.md);
+   signature C03:synack-without-syn-queue-runs-cancelled-job.
+   C03_parent_order / C03_cancelled_job_not_run exclude this configuration by hypothesis
+   (ack_first false l / has_syn c = true): their link is [linked]. *)
+Theorem C03_synack_honours_cancel_refuted : ~ synack_honours_cancel.
+Proof. exact synack_honours_cancel_refuted. Qed.
+Print Assumptions C03_synack_honours_cancel_refuted.
+
+Theorem C03_synack_without_syn_queue_witness :
+  has_send_ack plain_pc = true /\ has_syn plain_cfg = false /\ hj_cancel plain_job = true /\
+  let wl := w_events plain_cfg [RMsg (hs_req plain_pc false plain_cfg plain_job)] in
+  wl = [EInq; ENow; EPut (mk_msg ACK 41 None (PAckP 100 4242 None));
+        ERun 41 None; EPut (mk_msg READY 41 None (PReadyP (ROk 5) 7)); EInq] /\
+  hs_parent plain_pc 41 true wl =
+  (mk_ar true true None None true false,
+   [OCancelled; OAcked; OTimeoutCancel; OCbResult 5; OReadied]) /\
+  accept_first false (snd (hs_parent plain_pc 41 true wl)) = false.
+Proof. exact synack_without_syn_queue_witness. Qed.
+Print Assumptions C03_synack_without_syn_queue_witness.
+
 (* ------------------------------------------------------------ non-vacuity *)
+(* linked handshake: job 1 cancelled before acceptance (3 empty polls), job 2 not; the late
+   answer case: 61 empty polls before the ACK answer of job 3 *)
+Example C03_handshake_witness :
+  let pc := mk_pcfg true true true true true in
+  let c := mk_cfg None (Some 9) 7 None 4242 None None in
+  let j (n : Z) (k : nat) (cancel : bool) :=
+      RMsg (mk_hjob (mk_req TASK n None (100 + n) (Returns n) (repeat RTimeout k) 0 false) cancel) in
+  let hins := [j 1 3%nat true; j 2 0%nat false; j 3 61%nat false; RShutdown] in
+  linked pc c /\ (forall h, In (RMsg h) hins -> delay_ok h = true) /\
+  proto (w_events c (hs_ins pc true c hins)) =
+  [EPut (mk_msg ACK 1 None (PAckP 101 4242 (Some 9)));
+   EPut (mk_msg ACK 2 None (PAckP 102 4242 (Some 9))); ERun 2 None;
+   EPut (mk_msg READY 2 None (PReadyP (ROk 2) 7));
+   EPut (mk_msg ACK 3 None (PAckP 103 4242 (Some 9))); ERun 3 None;
+   EPut (mk_msg READY 3 None (PReadyP (ROk 3) 7))].
+Proof.
+  cbv zeta. split; [|split].
+  - unfold linked. cbn. repeat split. exists 9. reflexivity.
+  - intros h [H|[H|[H|[H|[]]]]]; inversion H; reflexivity.
+  - vm_compute. reflexivity.
+Qed.
+
 Definition ex_cfg : cfg := mk_cfg (Some 2) (Some 9) 7 None 4242 (Some 100) (Some ([0; 1], 2)).
 Definition ex_job (j : Z) (b : beh) (answer : Z) (mem : Z) : rcv req :=
   RMsg (mk_req TASK j None (100 + j) b [RTimeout; RMsg answer] mem false).
